@@ -4,6 +4,8 @@ pub mod c03;
 pub mod c04;
 pub mod c05;
 pub mod c09;
+pub mod c13;
+pub mod c14;
 pub mod c16;
 pub mod c17;
 pub mod c18;
@@ -29,6 +31,8 @@ pub fn dispatch(id: &str, tier: Tier, replay_file: Option<&Path>) -> i32 {
         "C04" => go!(c04),
         "C05" => go!(c05),
         "C09" => go!(c09),
+        "C13" => go!(c13),
+        "C14" => go!(c14),
         "C16" => go!(c16),
         "C17" => go!(c17),
         "C18" => go!(c18),
